@@ -324,6 +324,72 @@ func (ns *normState) planRenames() editSet {
 		}
 	}
 
+	// --- private named types: a canonical receiver type that is missing while exactly one unknown private
+	// type of the package has its methods (names and signatures) and no others is that type under a new name
+	for _, short := range []string{"flamego", "inject", "route"} {
+		pk := ns.pkgs[short]
+		if pk == nil {
+			continue
+		}
+		sc := pk.Types.Scope()
+		canonRecv := map[string]map[string]string{} // type name → method name → signature
+		for _, cf := range canonFuncs {
+			if cf.Pkg != short || cf.Recv == "" {
+				continue
+			}
+			r := strings.TrimPrefix(cf.Recv, "*")
+			if canonRecv[r] == nil {
+				canonRecv[r] = map[string]string{}
+			}
+			canonRecv[r][cf.Name] = cf.Sig
+		}
+		known := map[string]bool{}
+		for r := range canonRecv {
+			known[r] = true
+		}
+		for _, cf := range canonFields {
+			if cf.Pkg == short {
+				known[cf.Struct] = true
+			}
+		}
+		for missing, meths := range canonRecv {
+			if sc.Lookup(missing) != nil || ast.IsExported(missing) {
+				continue
+			}
+			var cands []*types.TypeName
+			for _, n := range sc.Names() {
+				tn, ok := sc.Lookup(n).(*types.TypeName)
+				if !ok || tn.Exported() || known[n] || tn.IsAlias() {
+					continue
+				}
+				nt, ok := tn.Type().(*types.Named)
+				if !ok {
+					continue
+				}
+				if _, isIface := nt.Underlying().(*types.Interface); isIface {
+					continue
+				}
+				if nt.NumMethods() != len(meths) {
+					continue
+				}
+				same := true
+				for i := 0; i < nt.NumMethods(); i++ {
+					m := nt.Method(i)
+					if sg, has := meths[m.Name()]; !has || sigStr(m.Type().(*types.Signature)) != sg {
+						same = false
+					}
+				}
+				if same {
+					cands = append(cands, tn)
+				}
+			}
+			if len(cands) == 1 {
+				renameObj[cands[0]] = missing
+				ns.notes = append(ns.notes, fmt.Sprintf("the private type %s.%s is treated as %s (only unknown type with exactly its methods)", short, cands[0].Name(), missing))
+			}
+		}
+	}
+
 	// collect identifier edits
 	for short, pk := range ns.pkgs {
 		_ = short
